@@ -60,6 +60,10 @@ SCEN = {
 }
 
 
+def only(tier, module, depth, inv):
+    return {'module': module, 'depth': {tier: depth}, 'invariants': list(inv)}
+
+
 def scen(names, inv):
     return [SCEN[n](list(inv)) for n in names.split()]
 
@@ -91,13 +95,20 @@ PROPS = {
             'lens': [(['r', 'o', 'e', 'q.lw', 'q.rw', 'z.streams.ow', 'z.streams.iw', 'z.ow'], S('call:set', 'frame:SET'))]},
     'C13': {'scenarios': scen('Pair1 HdrOutC HdrOutS PushS', ['P_C13_CleanSendsDecode']),
             'lens': [(['o', 'r'], S('call:hdr', 'call:push')), (['r', 'e'], S('dlv')), (['z.hp'], ANY)]},
-    'C14': {'scenarios': scen('HdrOutC HdrOutS Pair1', ['P_C14_EmittedBlocksConformant']),
+    'C14': {'scenarios': scen('HdrOutC HdrOutS Pair1', ['P_C14_EmittedBlocksConformant'])
+            + [sc('MC_HdrEnumOutC', 2, 2, ['P_C14_EmittedBlocksConformant']), sc('MC_HdrEnumOutS', 2, 2, ['P_C14_EmittedBlocksConformant']),
+               only('thorough', 'MC_HdrEnumOutC2', 2, ['P_C14_EmittedBlocksConformant']),
+               only('thorough', 'MC_HdrEnumOutS2', 2, ['P_C14_EmittedBlocksConformant'])],
             'lens': [(['r', 'o'], S('call:hdr', 'call:push'))]},
-    'C15': {'scenarios': scen('HdrInS HdrInC', ['P_C15_DeliveredBlocksConformant']),
+    'C15': {'scenarios': scen('HdrInS HdrInC', ['P_C15_DeliveredBlocksConformant'])
+            + [sc('MC_HdrEnumInS', 2, 2, ['P_C15_DeliveredBlocksConformant']), sc('MC_HdrEnumInC', 2, 2, ['P_C15_DeliveredBlocksConformant']),
+               only('thorough', 'MC_HdrEnumInS2', 2, ['P_C15_DeliveredBlocksConformant']),
+               only('thorough', 'MC_HdrEnumInC2', 2, ['P_C15_DeliveredBlocksConformant'])],
             'lens': [(['r', 'e', 'o'], S('frame:HEADERS', 'frame:PP'))]},
     'C16': {'scenarios': scen('LenC LenS LenC2', ['P_C16_ContentLength']),
             'lens': [(['r', 'e', 'o', 'z.streams.ecl', 'z.streams.acl', 'z.streams.meth'], S('frame:HEADERS', 'frame:DATA'))]},
-    'C17': {'scenarios': scen('CloseS HdrInS HdrInC LifeC RawS RawC', ['OnlyKnownExceptions']),
+    'C17': {'scenarios': scen('CloseS HdrInS HdrInC LifeC RawS RawC', ['OnlyKnownExceptions'])
+            + [sc('MC_HdrEnumInS', 2, 2, ['OnlyKnownExceptions']), sc('MC_HdrEnumInC', 2, 2, ['OnlyKnownExceptions'])],
             'lens': [(['r'], S('recv', 'dlv'))]},
     'C18': {'scenarios': scen('CloseS LifeS SetS HdrInS FrameS RawS RawC', ['P_C18_OneGoAwayWithCode', 'P_C18_SizeViolationsAreFrameSizeErrors']),
             'lens': [(['r', 'o'], S('recv', 'dlv'))]},
